@@ -46,6 +46,9 @@ pub enum K {
     IntoChildrenCollect,
     /// `FromIterator` over the reversed entry list (insertion-order independence)
     RecollectRev,
+    /// `FromIterator` over a sequence in which every key occurs twice (second time with another
+    /// value and the other representation): the last occurrence wins
+    FromIterDup,
 }
 
 #[derive(Clone, Copy, Debug, PartialEq, Eq, Hash, PartialOrd, Ord)]
@@ -58,7 +61,7 @@ pub struct Op {
     pub arg: u32,
 }
 
-pub const ALL_KINDS: [K; 24] = [
+pub const ALL_KINDS: [K; 25] = [
     K::Insert,
     K::EntryInsert,
     K::EntryOrInsert,
@@ -83,6 +86,7 @@ pub const ALL_KINDS: [K; 24] = [
     K::Recollect,
     K::IntoChildrenCollect,
     K::RecollectRev,
+    K::FromIterDup,
 ];
 
 pub fn kind_from_name(name: &str) -> Option<K> {
@@ -553,6 +557,21 @@ pub fn apply<P: PType>(map: &mut PrefixMap<P, u32>, model: &mut Model, w: &Walk,
             }
             *map = items.into_iter().collect();
         }
+        K::FromIterDup => {
+            let old = std::mem::take(map);
+            let n = old.len();
+            let first: Vec<(P, u32)> = old.into_iter().take(cap(n)).collect();
+            let mut seq: Vec<(P, u32)> = first.clone();
+            for (i, (p, _)) in first.iter().enumerate() {
+                let r = p.raw();
+                let nk = norm(r);
+                let other = if r == with_rep(nk, 1, uni.width) { with_rep(nk, 0, uni.width) } else { with_rep(nk, 1, uni.width) };
+                let other = if P::KEEPS_HOST { other } else { nk };
+                seq.push((mkp(other), tok + i as u32));
+                model.insert(other, tok + i as u32);
+            }
+            *map = seq.into_iter().collect();
+        }
         K::IntoChildrenCollect => {
             let old = std::mem::take(map);
             let n = old.len();
@@ -579,9 +598,13 @@ pub enum Alphabet {
 
 /// enumerate the operations enabled in a state (they depend on the state only through the stored
 /// entries, for `retain` subsets)
-pub fn enumerate_ops(uni: &Universe, model: &Model, alpha: Alphabet, two_reps: bool, retain_all_subsets: bool) -> Vec<Op> {
+pub fn enumerate_ops(uni: &Universe, model: &Model, alpha: Alphabet, rep_mode: u8, retain_all_subsets: bool) -> Vec<Op> {
     let mut v = vec![];
-    let reps: &[u8] = if two_reps { &[0, 1] } else { &[0] };
+    let reps: &[u8] = match rep_mode {
+        0 => &[0],
+        1 => &[1],
+        _ => &[0, 1],
+    };
     let nkeys = uni.keys.len() as u8;
     let per_key: Vec<(K, Vec<u32>)> = match alpha {
         Alphabet::Full => vec![
@@ -627,11 +650,12 @@ pub fn enumerate_ops(uni: &Universe, model: &Model, alpha: Alphabet, two_reps: b
     // key-less operations
     v.push(Op { kind: K::Clear, key: 0, rep: 0, arg: 0 });
     if alpha == Alphabet::Full {
-        for kind in [K::IterMutWrite, K::ValuesMutWrite, K::CloneSelf, K::Recollect, K::RecollectRev] {
+        for kind in [K::IterMutWrite, K::ValuesMutWrite, K::CloneSelf, K::Recollect, K::RecollectRev, K::FromIterDup] {
             v.push(Op { kind, key: 0, rep: 0, arg: 0 });
         }
     } else if alpha == Alphabet::Canonical {
         v.push(Op { kind: K::Recollect, key: 0, rep: 0, arg: 0 });
+        v.push(Op { kind: K::FromIterDup, key: 0, rep: 0, arg: 0 });
     }
     // retain: keep-subsets of the stored entries
     let ids: Vec<usize> = model.keys().iter().filter_map(|k| uni.key_id(*k)).collect();
